@@ -22,7 +22,8 @@ convert(B); nothing tags that shape any more.
 Targeted shapes (small probabilities): A ending in a paragraph whose LAZY continuation line, indented by a full tab stop, looks like a
 reference definition (`w\n    [r]: /u` -- not a definition: those are indented by at most 3 spaces; it is the only place where `]:` may occur);
 A ending in a loose list whose later item is a `#` heading directly followed by another line; B starting with a heading directly followed by
-an indented line (code), or spelling an inline placeholder with STX/ETX (removed by input normalisation).  Every search also evaluates ONE
+an indented line (code), or spelling an inline placeholder with STX/ETX (removed by input normalisation); A ending in a Setext-underlined block whose
+title line consists only of Unicode white space that normalisation does not empty (NBSP, FF, EM SPACE ...: an empty `<h1>` / `<h2>`).  Every search also evaluates ONE
 long pair (`long_A()`: 2500 paragraphs, more than 10 000 stashed inline nodes; deterministic).
 One other property's known finding can leak in and is tagged (as F-C08-1, registered for this property):
    * F-C10-1 / F-C10-2: a leaked inline placeholder (`[]("\((`) makes the output depend on the running stash counter; tagged when any of the
@@ -74,6 +75,12 @@ HEADITEM = ['- First\n\n- ## Second\n    details', '1. a\n\n2. # b\n    c *d*', 
 B_PROBES = ['## Install\n    pip install x', '# h\n    code *x*', 'Raw \x02klzzwxh:0000\x03 x', 'w \x02klzzwxh:0001\x03\x02klzzwxh:0000\x03']
 
 
+# A ending in a Setext-underlined block whose title line holds no visible text: only Unicode white space that input normalisation does
+# not empty (NBSP, FF, VT, EM SPACE, NEL, U+2028 ...; a line of plain spaces would be emptied) -- an empty heading on the unchanged tree
+UWS_TITLES = ['\xa0', '\x0c', '\u2003', '\xa0 ', ' \xa0', '\u2003\xa0', '\x0b', '\u2028', '\u2029', '\x1c', '\x1d', '\x1e', '\x85', '\u3000', '\u2009', '   \xa0', '\xa0\xa0\xa0']
+UNDERLINES = ['=====', '-----', '=', '-', '==', '---', '----------', '= ', '---  ', '=-', '-=', '=====\nmore *text*', '--\n    tail', '===\n===']
+
+
 def strip_lazydef(a):
     for suf in LAZYDEF:
         if a == suf: return ''
@@ -87,6 +94,7 @@ def gen_A(rng):
     k = rng.random()
     if k < 0.04: return (a.rstrip('\n') + '\n\n' if a.strip() else '') + rng.choice(LAZYDEF)
     if k < 0.08: return (a.rstrip('\n') + '\n\n' if a.strip() else '') + rng.choice(HEADITEM) + rng.choice(['', '', '\n'])
+    if k < 0.14: return (a.rstrip('\n') + '\n\n' if a.strip() else '') + rng.choice(UWS_TITLES) + '\n' + rng.choice(UNDERLINES) + rng.choice(['', '', '\n'])
     if rng.random() < 0.2: a += rng.choice(['\n', '\n\n', '\n\n\n', '  ', '\\', '\n    ', ' \n', '\n>', '\n- ', '\n\n    code\n\n'])
     k = rng.random()
     if k < 0.04:                                   # A consisting of white space only (any width, tabs, several lines): renders '' and must not disturb B
